@@ -49,7 +49,7 @@ def r32(ctx, res):
     p, q = fj.params[:2]
     req = ["hit(%s)" % " | ".join(sorted(["%s.convex_polygons[*]" % p, q])),
            "hit(%s)" % " | ".join(sorted(["%s.convex_polygons[*]" % q, p]))]
-    n += check_families(ctx, res, "R3.2", fj, req, "faces of each polyhedron clipped by the other")
+    n += check_families(ctx, res, "R3.2", fj, req, "faces of each polyhedron clipped by the other", quick_rejection=True)
     ctx.require(res, "R3.2", n, 7, "swap-closure obligations")
 
 
@@ -198,6 +198,11 @@ def run(ctx, res):
     from ..affine import affine_scope, report_affine
     k10 = report_affine(ctx, res, "R3.10", affine_scope(ctx, hs, ("Segment", "ConvexPolygon", "ConvexPolyhedron")), "the intersection")
     ctx.require(res, "R3.10", k10, 10, "function contexts examined for position / direction mismatches")
+    # R3.11 no computed value is rounded on its way into the result (exact.report_rounding)
+    from ..exact import report_rounding
+    from ..affine import affine_scope as _ascope
+    kr = report_rounding(ctx, res, "R3.11", _ascope(ctx, hs, ()), "the intersection")
+    ctx.require(res, "R3.11", kr, 5, "functions scanned for rounding")
     # R3.7 the linear solver picks its pivot row by the pivot column (coverage.py)
     from ..coverage import check_pivot_choice
     check_pivot_choice(ctx, res, "R3.7")
